@@ -90,9 +90,10 @@ def run_c08(prop, tier, seed, replay=None):
     if len(events) != len(scns):
         raise vf.ToolError(f"harness recorded {len(events)} events for {len(scns)} scenarios")
     t_j = __import__('time').time()
-    chunk = max(150, -(-len(events) // 8))          # few JVMs: start-up (ASSUMEd vectors) costs ~10 s each
+    # few JVMs (start-up costs ~10 s each), but chunks small enough to stay far below the per-JVM time-out on a loaded box
+    chunk = max(150, -(-len(events) // (8 if tier == "quick" else 20)))
     verdicts, st, tr = vf.judge_events(work, "Trace_Resolve.tla", "Trace_Resolve.cfg", events, chunk=chunk, jobs=4,
-                                       timeout=1500)
+                                       timeout=2400)
     rep.add_states(st, tr)
     vf.log(f"judged {len(events)} events in {__import__('time').time() - t_j:.0f}s")
     ncases = sum(len(s["vals"]) for s in scns)
@@ -227,8 +228,8 @@ def run_c09(prop, tier, seed, replay=None):
         raise vf.ToolError("no pair was reported Full (soundness clause vacuous)")
     import time
     t_j = time.time()
-    chunk = max(20, -(-len(events) // 8))
-    verdicts, st, tr = vf.judge_events(work, "Trace_Compat.tla", "Trace_Compat.cfg", events, chunk=chunk, jobs=4, timeout=1500)
+    chunk = max(20, -(-len(events) // (8 if tier == "quick" else 16)))
+    verdicts, st, tr = vf.judge_events(work, "Trace_Compat.tla", "Trace_Compat.cfg", events, chunk=chunk, jobs=4, timeout=2400)
     vf.log(f"judged {len(events)} events ({pairs} pairs, {reads} reads) in {time.time() - t_j:.0f}s")
     rep.add_states(st, tr)
     rep.cov["traces_validated_against_impl"] = pairs
